@@ -39,7 +39,10 @@ Fixpoint finalize_loop (fuel : nat) (reachable : nat -> bool) (blocks : list blo
                   match b_compl b with
                   | Some a => finalize_loop k reachable (update_nth blocks i (fun b => set_term b (TmReturn a))) rest taken
                   | None =>
-                      let t := if reachable i then TmReturn OVoid else TmUnreachable in
+                      (* a non-empty block keeps its incoming "br"s, so it can still be entered *)
+                      let has_incoming := match incoming_of blocks 0 i with [] => false | _ => true end in
+                      let nonempty := match b_stmts b with [] => false | _ => true end in
+                      let t := if reachable i || (nonempty && has_incoming) then TmReturn OVoid else TmUnreachable in
                       let blocks' := update_nth blocks i (fun b => set_term b t) in
                       match b_stmts b with
                       | [] => let inc := if existsb (Nat.eqb i) taken then [] else incoming_of blocks 0 i in
@@ -74,19 +77,19 @@ Definition finalize_completion_values (blocks : list block) (start : nat) : res 
   end.
 
 (* ---------- build / build_callback ---------- *)
-Record built := { bu_code : option code; bu_diags : list dclass; bu_panic : option string }.
+Record built := { bu_code : option code; bu_diags : list dclass; bu_panic : option string; bu_exempt : list nat }.
 
 Definition finish (r : out sres * bstate) : built :=
   match r with
-  | (P site, s) => {| bu_code := None; bu_diags := bs_diags s; bu_panic := Some site |}
-  | (F, s) => {| bu_code := None; bu_diags := bs_diags s; bu_panic := None |}
-  | (V (false, _), s) => {| bu_code := None; bu_diags := bs_diags s; bu_panic := None |}
+  | (P site, s) => {| bu_code := None; bu_diags := bs_diags s; bu_panic := Some site; bu_exempt := [] |}
+  | (F, s) => {| bu_code := None; bu_diags := bs_diags s; bu_panic := None; bu_exempt := bs_exempt s |}
+  | (V (false, _), s) => {| bu_code := None; bu_diags := bs_diags s; bu_panic := None; bu_exempt := bs_exempt s |}
   | (V (true, _), s) =>
       match finalize_completion_values (bs_blocks s) (List.length (bs_blocks s) - 1) with
       | Ok bl => {| bu_code := Some {| c_blocks := bl; c_locals := bs_locals s; c_nparams := bs_nparams s; c_sdeps := []; c_nobs := 0 |};
-                    bu_diags := bs_diags s; bu_panic := None |}
-      | Panic site => {| bu_code := None; bu_diags := bs_diags s; bu_panic := Some site |}
-      | _ => {| bu_code := None; bu_diags := bs_diags s; bu_panic := Some "OutOfFuel" |}
+                    bu_diags := bs_diags s; bu_panic := None; bu_exempt := bs_exempt s |}
+      | Panic site => {| bu_code := None; bu_diags := bs_diags s; bu_panic := Some site; bu_exempt := [] |}
+      | _ => {| bu_code := None; bu_diags := bs_diags s; bu_panic := Some "OutOfFuel"; bu_exempt := [] |}
       end
   end.
 
